@@ -90,10 +90,14 @@ impl<S: BuildHasher + Clone + 'static + Send> AsyncLFUPolicy<S> {
         }
 
         // block until the Processor thread returns.
+        #[cfg(transparencies_stretto_verif)]
+        crate::verif::yield_point("block:pol_stop");
         self.stop_tx
             .send(())
             .await
             .map_err(|e| CacheError::SendError(format!("{}", e)))?;
+        #[cfg(transparencies_stretto_verif)]
+        crate::verif::yield_point("unblock:pol_stop");
         self.is_closed.store(true, Ordering::SeqCst);
         Ok(())
     }
@@ -121,6 +125,11 @@ impl<S: BuildHasher + Clone + 'static + Send> PolicyProcessor<S> {
 
     #[inline]
     fn spawn(self, spawner: Box<dyn Fn(BoxFuture<'static, ()>) + Send + Sync>) {
+        #[cfg(transparencies_stretto_verif)]
+        if crate::verif::park_requested() {
+            crate::verif::park(Box::new(self));
+            return;
+        }
         (spawner)(Box::pin(async move {
             loop {
                 select! {
@@ -153,3 +162,30 @@ unsafe impl<S: BuildHasher + Clone + 'static + Send> Send for PolicyProcessor<S>
 unsafe impl<S: BuildHasher + Clone + 'static + Send + Sync> Sync for PolicyProcessor<S> {}
 
 impl_policy!(AsyncLFUPolicy);
+
+#[cfg(transparencies_stretto_verif)]
+impl<S: BuildHasher + Clone + 'static + Send> PolicyProcessor<S> {
+    /// One iteration of the loop in `spawn`, with the `select!` arm chosen by the caller.
+    pub(crate) fn verif_step(&mut self, b: crate::verif::Branch) -> crate::verif::Stepped {
+        use crate::verif::{Branch, Stepped};
+        use async_channel::TryRecvError;
+        match b {
+            Branch::Insert => match self.items_rx.try_recv() {
+                Ok(items) => {
+                    self.handle_items(Ok(items));
+                    Stepped::Done
+                }
+                Err(TryRecvError::Empty) => Stepped::NotReady,
+                Err(TryRecvError::Closed) => {
+                    self.handle_items(Err(RecvError));
+                    Stepped::Done
+                }
+            },
+            Branch::Stop => match self.stop_rx.try_recv() {
+                Ok(_) | Err(TryRecvError::Closed) => Stepped::Exited,
+                Err(TryRecvError::Empty) => Stepped::NotReady,
+            },
+            _ => Stepped::NotReady,
+        }
+    }
+}
